@@ -67,13 +67,15 @@ def run(ctx):
         decisions.compare(ctx, 'C37-D2', prog, T, fn, consts, 'C37_from_der_checked', k=4, bools=True, kinds=('failure', 'informational', 'success'))
     if ctx.require(prog.has(CIM), CIM):
         s, dnf = T.truth_dnf(CIM)
+        from terms import norm_dnf
+        dnf = norm_dnf(T, dnf)
         ctx.analysed(CIM)
         ok = dnf is not None and len(dnf) > 0
         ctx.ob('C37-D2', CIM, 'truth condition', 'computable', ok, detail=s[:200])
         for i, c in enumerate(dnf or []):
-            ser = any(re.match(r'^!PartialEq::ne\(cert_id\.\w+,decode\(', l) or re.match(r'^PartialEq::eq\(cert_id\.\w+,decode\(', l) for l in c)
-            nh = any(re.match(r'^PartialEq::eq\(cert_id\.\w+,hash_by_oid\(cert_id\.[\w.]+,encode\(', l) for l in c)
-            kh = any(re.match(r'^PartialEq::eq\(cert_id\.\w+,hash_by_oid\(cert_id\.[\w.]+,BitVec::as_raw_slice\(', l) for l in c)
+            ser = any(re.match(r'^PartialEq::eq\(', l) and re.search(r'[(,]cert_id\.\w+[,)]', l) and 'decode(' in l and 'hash_by_oid(' not in l for l in c)
+            nh = any(re.match(r'^PartialEq::eq\(', l) and re.search(r'[(,]cert_id\.\w+[,)]', l) and re.search(r'hash_by_oid\(cert_id\.[\w.]+,encode\(', l) for l in c)
+            kh = any(re.match(r'^PartialEq::eq\(', l) and re.search(r'[(,]cert_id\.\w+[,)]', l) and re.search(r'hash_by_oid\(cert_id\.[\w.]+,BitVec::as_raw_slice\(', l) for l in c)
             ctx.ob('C37-D2', CIM, 'return true (class %d)' % i, 'serial number matches', ser, detail=' & '.join(sorted(c))[:300])
             ctx.ob('C37-D2', CIM, 'return true (class %d)' % i, 'issuer name hash matches', nh, detail=' & '.join(sorted(c))[:300])
             ctx.ob('C37-D2', CIM, 'return true (class %d)' % i, 'issuer key hash matches', kh, detail=' & '.join(sorted(c))[:300])
